@@ -42,5 +42,21 @@ check("C08", "other",
       "contradiction lint (constantly-false comparison inside a case arm), sibling-field accumulation rule, writer/reader flag agreement, graph-shape abstraction of NFACons",
       "DESIGN.md 3/C08")
 
-for pid in ["C02","C03","C06","C07","C09","C11","C12","C14","C15","C16","C17"]:
+check("C02", "other",
+      "Decides the construction shapes and the two selection mechanisms, each a necessary condition of longest-match / earliest-rule lexing: Thompson shape of every NFACons as a labelled graph compared with the textbook shape, pickAction selects the minimum source position over all candidates, the runtime acts only when the transition search is exhausted (with the bisection steps checked), universe constants for '.' and negation, the Build/NFAToDFA pipeline skeleton (all sources, eps-closure, canonical signature), optimize keeps accepting states of different rules apart; plus the lexer table format agreement (FMT-1..3).",
+      "Not decided: correctness of subset construction, partition refinement, range splitting/merging (rang3, normalizeInputs, mergeTransitions compute on run-time values), behaviour on invalid UTF-8 (driver).",
+      "graph-shape abstraction of AddTransition calls per operator (guards evaluated per constant), running-minimum idiom recognition, CFG must-precede on the pipeline, writer/reader agreement",
+      "DESIGN.md 3/C02")
+check("C07", "other",
+      "Decides the mechanisms behind mode switching and action lists: the reader's push/pop arms obey a stack discipline on the instance's mode stack; no action list can hold an interpretation-ending action before a falling-through one (classes derived from which reader arms return; element types of every append tracked through switch arms, diversions and local buffers); Mode.Index = position in the sorted name list with no gaps, default mode first, push parameter = Index of the named mode, _lexerModes positional in Index order; implicit last actions; action codes agree.",
+      "Not decided: nesting behaviour on concrete inputs; Reset() leaves the mode stack untouched (outside the property's wording).",
+      "abstract interpretation of action-list construction (possible action types per append site, program order incl. loops) against reader arm classes; stack-discipline pattern rules on the template instance; index=position rules",
+      "DESIGN.md 3/C07")
+check("C11", "other",
+      "Decides the consumption accounting the runtime relies on: EOF only for the end-of-input rune, after the pending actions, and only when an explicit per-instance flag says nothing was consumed since the last token boundary; every consume sets the flag; every token-ending arm and Reset clear it and return to state 0; actions are unreachable while nothing was consumed (an empty match is never a token); result codes agree with the driver.",
+      "Not decided (cannot be, statically): that repeated ReadToken terminates on every input, and conservation of every character. Known limitation: text accumulated by action-less fragments is dropped without error when the input ends inside them (the driver is external).",
+      "typestate-style rule on the template instance: flag set on every consume exit, cleared on every boundary exit and in Reset, read by the EOF test; guard recognition for the action loop",
+      "DESIGN.md 3/C11")
+
+for pid in ["C03","C06","C09","C12","C14","C15","C16","C17"]:
     na(pid, "check under construction in this session; see DESIGN.md section 3 for the planned rules")
